@@ -93,6 +93,18 @@ def gen_instance(rng, maxvars):
             "default": True}
 
 
+def stress_instances(thorough):
+    """hand-picked larger instances where slack sizing matters (every set of a 3-fold covered element is needed)"""
+    out = [{"cls": "SetCover", "inst": {"U": [0, 1, 2, 3], "V": [[0, 1], [0, 2], [0, 3]], "weights": None, "log_trick": True},
+            "A": 2, "B": 1, "strict": True, "default": True, "big": True}]
+    if thorough:
+        out.append({"cls": "SetCover", "inst": {"U": [0, 1, 2, 3], "V": [[0, 1], [0, 2], [0, 3]], "weights": None, "log_trick": False},
+                    "A": 3, "B": 2, "strict": True, "default": False, "big": True})
+        out.append({"cls": "JobSequencing", "inst": {"lengths": [3, 1, 1], "m": 2, "log_trick": True}, "A": 4, "B": 1, "strict": True,
+                    "default": False, "big": True})
+    return out
+
+
 def build(case):
     from qubovert import problems
     cls, inst = case["cls"], case["inst"]
@@ -126,7 +138,7 @@ def run_case(case, cid, maxvars):
             args_snap = copy.deepcopy(inst)
             prob = build(case)
             n = int(prob.num_binary_variables)
-            if n > maxvars:
+            if n > (16 if case.get("big") else maxvars):
                 rec["skip"] = True
                 return rec
             kw = {}
@@ -281,9 +293,9 @@ def run(tier, out, replay=None):
     wd = common.workdir("c10")
     rng = common.rng_for(out.seed, "c10")
     thorough = tier == "thorough"
-    maxvars = 12 if thorough else 10
+    maxvars = 13 if thorough else 11
     try:
-        cases = [gen_instance(rng, maxvars) for _ in range(700 if thorough else 110)]
+        cases = [gen_instance(rng, maxvars) for _ in range(1500 if thorough else 300)] + stress_instances(thorough)
         for i, c in enumerate(cases):
             c["_index"] = i
         if replay:
